@@ -27,6 +27,12 @@ def base(rng):
     ops.append('enable 1')
     for _ in range(rng.randint(0, 4)):
         ops.append(gen_disp.gen_op(rng, objs, ['dispatch', 'enable', 'enable', 'add', 'remove']))
+    if rng.random() < 0.3:
+        # clear() (possibly after an interrupted release), then a fresh batch of deferred events
+        ops.append('clear')
+        ops += [f'add {o}' for o in objs if rng.random() < 0.8]
+        ops += [gen_disp.gen_op(rng, objs, ['dispatch'])] + ['enable 0']
+        ops += [gen_disp.gen_op(rng, objs, ['dispatch']) for _ in range(rng.randint(1, 4))]
     ops += ['enable 1', 'enable 1']
     return lines, objs, mapping_of, ops
 
